@@ -48,7 +48,10 @@ func TestC11(t *testing.T) {
 		}
 		tb := s.Tables[0]
 		const uuid = "00000000-0000-4000-8000-000000000001"
-		pool := &kit.Pool{}
+		pool := &kit.Pool{Big: rapid.IntRange(0, 19).Draw(t, "big") == 0}
+		if pool.Big {
+			kit.Label("C11", "big-mode-case")
+		}
 		g := kit.NewTxnGen(s, kit.TxnCfg{})
 		var first kit.Row
 		if rapid.IntRange(0, 3).Draw(t, "exists") > 0 {
